@@ -152,6 +152,25 @@ def make_cases(ctx):
             rtap = rng.random() < 0.5
             add("c04", "%d %s ago at %02d:%02d" % (n, word(u, n, rng), h, mi), b, kw, "ago", rng.choice(PDF), [h, mi, 0, 0], [u],
                 [{"u": u, "num": n, "den": 1}], rtap=rtap)
+            # several units AND a clock time in one phrase ("1 year, 2 months ago at 2pm"): the families above vary them
+            # one at a time
+            for _ in range(2 if ctx.quick() else 6):
+                k = rng.choice([2, 2, 3])
+                us = sorted(rng.sample(range(8), k))
+                ns = [rng.choice([1, 2, 5, 11, 13, 30]) for _ in us]
+                dir_ = rng.choice(["ago", "in"])
+                parts = ["%d %s" % (n_, word(UNITS[i], n_, rng)) for i, n_ in zip(us, ns)]
+                h, mi = rng.choice([(0, 0), (14, 5), (23, 59), (9, 30), (2, 0)])
+                clock = rng.choice(["at %02d:%02d" % (h, mi), "%d:%02d" % (h, mi), "at %d:%02d %s" % (h % 12 or 12, mi, "am" if h < 12 else "pm")])
+                if dir_ == "ago":
+                    s = rng.choice([", ".join(parts), " and ".join(parts), " ".join(parts)]) + " ago " + clock
+                else:
+                    s = "in " + rng.choice([" ".join(parts), " and ".join(parts)]) + " " + clock
+                kw = kw0()
+                for i, n_ in zip(us, ns):
+                    setkw(kw, UNITS[i], n_)
+                add("c04", s, b, kw, dir_, rng.choice(PDF), [h, mi, 0, 0], [UNITS[i] for i in us],
+                    [{"u": UNITS[i], "num": n_, "den": 1} for i, n_ in zip(us, ns)], rtap=rng.random() < 0.4)
     # the ends of the representable range: results landing exactly in year 1 / year 9999, and one step beyond (None)
     for by in (1809, 1999, 2019, 2199, 1800, 2200, 2000):
         b = (by, rng.choice([1, 6, 12]), rng.choice([1, 15, 28])) + tod()
